@@ -356,3 +356,19 @@ def apply_subs(expr, subs):
     e = e.replace(lambda x: isinstance(x, (sympy.ceiling, sympy.floor)),
                   lambda x: x.func(sympy.cancel(x.args[0])))
     return e
+
+
+def pull_positive_factor(e, k):
+    """Sound rewrite for k > 0: Max(k**p * a, k**p * b, ...) -> k**p * Max(a, b, ...) (same for Min),
+    applied bottom-up, so that scaled and unscaled formulas normalise to the same polynomial."""
+    if not isinstance(e, sympy.Basic) or not e.has(k):
+        return e
+    if not e.args:
+        return e
+    args = [pull_positive_factor(a, k) for a in e.args]
+    if isinstance(e, (sympy.Max, sympy.Min)):
+        for p in (-1, 1, -2, 2):
+            new = [sympy.cancel(a / k ** p) for a in args]
+            if not any(n.has(k) for n in new):
+                return k ** p * e.func(*new)
+    return e.func(*args)
